@@ -423,13 +423,13 @@ class Prov:
         if bd is None:
             return None
         target, src_e, how, node = bd
-        if how in ("for", "comp") and id(node) in self.context:
+        if how in ("for", "comp") and id(target) in self.context:
             inner, en = strip_enumerate(src_e)
             if en and isinstance(target, (ast.Tuple, ast.List)) and len(target.elts) == 2:
                 if name in au.assigned_names(target.elts[0]):
                     return None
                 target = target.elts[1]
-            ckind, corner = self.context[id(node)]
+            ckind, corner = self.context[id(bd[0])]
             if corner:
                 return ("elem", ckind, None) if isinstance(target, ast.Name) else None
             return self._from_row(target, name, ckind)
@@ -450,7 +450,9 @@ class Prov:
                 if k in CORNER_KINDS:
                     return ("elem", CORNER_KINDS[k], None) if isinstance(target, ast.Name) else None
                 return self._from_row(target, name, k)
-            rk = self.row_expr_kind(self.unwrap_row(inner), node, depth + 1)
+            un = self.unwrap_row(inner)
+            # the iterable of a comprehension clause is looked up from inside the comprehension (earlier clauses are visible)
+            rk = self.row_expr_kind(un, un if how == "comp" and au.parent(un) is not None else node, depth + 1)
             if rk is not None and isinstance(target, ast.Name):
                 return ("elem", rk, None)
             return None
